@@ -2,7 +2,7 @@
 # seed_eval.sh <Cxx> <k> [extra check ids...] : confirm a seeded mutation (from /tmp/seed/<Cxx>-out) and run the checks against it.
 # Keeps the mutation under /verif/seeded/<Cxx>-<k>/ with meta.json extended by what was run and what the checks reported.
 P=$1; K=$2; shift 2; CHECKS="$P $@"
-SRC=/tmp/seed/$P-out; DST=/verif/seeded/$P-$K; WT=/tmp/ev-repo-$P-$K
+SRC=${SEED_SRC:-/tmp/seed}/$P-out; DST=/verif/seeded/$P-${SEED_TAG:-}$K; WT=/tmp/ev-repo-$P-${SEED_TAG:-}$K
 mkdir -p $DST; cp $SRC/patch$K.diff $DST/patch.diff; cp $SRC/demo$K.rs $DST/demo.rs; cp $SRC/meta$K.json $DST/meta_agent.json
 export CARGO_NET_OFFLINE=true CARGO_TARGET_DIR=/tmp/ev-target
 git -C /repo worktree add -q $WT HEAD || exit 2
@@ -24,7 +24,7 @@ git -C /repo worktree remove --force $WT
 python3 - "$P" "$K" "$CLEAN" "$UNIT" "$MUT" "$RES" <<'PY'
 import json,sys
 p,k,clean,unit,mut,res=sys.argv[1:7]
-d='/verif/seeded/%s-%s/'%(p,k)
+import os; d='/verif/seeded/%s-%s%s/'%(p,os.environ.get('SEED_TAG',''),k)
 a=json.load(open(d+'meta_agent.json'))
 meta={"property":p,"breaks":a.get("summary"),"needs":a.get("needs"),"why_tests_miss":a.get("why_tests_miss"),
  "confirmed":{"demo_passes_on_clean_tree":clean=="0","unit_tests_pass_with_mutation":unit=="0","demo_fails_with_mutation":mut!="0"},
